@@ -6,91 +6,60 @@ Import ListNotations.
 Eval vm_compute in "THEOREM res_invariant"%string.
 Check res_invariant :
   forall (cf : cfg) (sched : list label),
-    1 <= cap cf -> race_free cf sched (init cf) ->
     exists s, run cf sched (init cf) = Ok s /\ Inv cf s /\ QInv cf s.
 Print Assumptions res_invariant.
-
-Eval vm_compute in "THEOREM res_invariant_all_schedules"%string.
-Check res_invariant_all_schedules :
-  forall (cf : cfg) (sched : list label) (s : state),
-    1 <= cap cf -> run cf sched (init cf) = Ok s -> Inv cf s.
-Print Assumptions res_invariant_all_schedules.
-
-Eval vm_compute in "THEOREM only_unused_push_can_panic"%string.
-Check only_unused_push_can_panic :
-  forall (cf : cfg) (l : label) (s : state),
-    Inv cf s ->
-    (exists s', step cf l s = Ok s' /\ Inv cf s') \/ (l = A_push /\ step cf l s = Panic QueueFull).
-Print Assumptions only_unused_push_can_panic.
 
 Eval vm_compute in "THEOREM res_invariant_inductive"%string.
 Check res_invariant_inductive :
   forall (cf : cfg) (l : label) (s : state),
-    Inv cf s -> QInv cf s -> ~ racy l s ->
+    Inv cf s -> QInv cf s ->
     exists s', step cf l s = Ok s' /\ Inv cf s' /\ QInv cf s'.
 Print Assumptions res_invariant_inductive.
 
-Eval vm_compute in "THEOREM unused_full_refuted"%string.
-Check unused_full_refuted :
-  run (mkCfg false true 1) f22_sched (init (mkCfg false true 1)) = Panic QueueFull /\
-  ~ race_free (mkCfg false true 1) f22_sched (init (mkCfg false true 1)).
-Print Assumptions unused_full_refuted.
+Eval vm_compute in "THEOREM is_full_guard_never_fires"%string.
+Check is_full_guard_never_fires :
+  forall cf sched s k rest,
+    run cf sched (init cf) = Ok s -> st_a s = ARemoving (k :: rest) ->
+    ring_is_full (unused_cap cf) (st_unused s) = false.
+Print Assumptions is_full_guard_never_fires.
 
 Eval vm_compute in "THEOREM capacity_exact"%string.
 Check capacity_exact :
   forall cf sched s,
-    1 <= cap cf -> run cf sched (init cf) = Ok s ->
+    run cf sched (init cf) = Ok s ->
     res_capacity s = cap cf /\
     res_len s = length (aorder (st_ar s)) + length (st_newq s) + length (gres (st_g s)) /\
     res_len s + st_removed s = st_created s /\
     res_len s <= cap cf /\
     (res_len s < cap cf ->
-       exists k c', ctl_try_reserve (st_ctl s) = Ok (Reserved k c') /\
+       exists k c', res_try_reserve (st_ctl s) = Ok (Reserved k c') /\
                     kidx k < cap cf /\ cfree (cs s (kidx k)) = true) /\
-    (res_len s = cap cf -> ctl_try_reserve (st_ctl s) = Ok ArenaFull).
+    (res_len s = cap cf -> res_try_reserve (st_ctl s) = Ok ArenaFull).
 Print Assumptions capacity_exact.
-
-Eval vm_compute in "THEOREM capacity_zero_refuted"%string.
-Check capacity_zero_refuted :
-  forall sr pb : bool, run (mkCfg sr pb 0) [G_reserve] (init (mkCfg sr pb 0)) = Panic OutOfBounds.
-Print Assumptions capacity_zero_refuted.
 
 Eval vm_compute in "THEOREM prompt_removal"%string.
 Check prompt_removal :
   forall cf sched1 s1 k p sched2 s2,
-    1 <= cap cf ->
-    race_free cf sched1 (init cf) -> run cf sched1 (init cf) = Ok s1 ->
+    run cf sched1 (init cf) = Ok s1 ->
     st_a s1 = AIdle -> resolve s1 k = Ok (Some p) -> In p (st_marked s1) ->
-    race_free cf sched2 s1 -> run cf sched2 s1 = Ok s2 -> st_callbacks s1 < st_callbacks s2 ->
+    run cf sched2 s1 = Ok s2 -> st_callbacks s1 < st_callbacks s2 ->
     resolve s2 k = Ok None /\ gone s2 k.
 Print Assumptions prompt_removal.
 
 Eval vm_compute in "THEOREM prompt_removal_queued"%string.
 Check prompt_removal_queued :
   forall cf sched1 s1 k p sched2 s2,
-    1 <= cap cf ->
-    race_free cf sched1 (init cf) -> run cf sched1 (init cf) = Ok s1 ->
+    run cf sched1 (init cf) = Ok s1 ->
     In (k, p) (st_newq s1) -> In p (st_marked s1) ->
-    race_free cf sched2 s1 -> run cf sched2 s1 = Ok s2 ->
+    run cf sched2 s1 = Ok s2 ->
     (st_callbacks s1 + 1 <= st_callbacks s2 -> resolve s2 k = Ok (Some p) \/ gone s2 k) /\
     (st_callbacks s1 + 2 <= st_callbacks s2 -> resolve s2 k = Ok None /\ gone s2 k).
 Print Assumptions prompt_removal_queued.
 
-Eval vm_compute in "THEOREM prompt_removal_refuted"%string.
-Check prompt_removal_refuted :
-  let cf := mkCfg true false 1 in
-  exists s1 s2,
-    run cf f22_prefix (init cf) = Ok s1 /\ st_a s1 = AIdle /\
-    resolve s1 (mkKey 0 1) = Ok (Some 1) /\ In 1 (st_marked s1) /\
-    run cf [A_start; A_remove; A_push; A_add; A_add] s1 = Ok s2 /\
-    st_callbacks s1 < st_callbacks s2 /\ st_a s2 = AIdle /\
-    resolve s2 (mkKey 0 1) = Ok (Some 1).
-Print Assumptions prompt_removal_refuted.
-
 Eval vm_compute in "THEOREM destroyed_on_caller"%string.
 Check destroyed_on_caller :
   forall cf sched s,
-    1 <= cap cf -> run cf sched (init cf) = Ok s ->
+    run cf sched (init cf) = Ok s ->
     (forall p t, In (p, t) (st_destroyed s) -> t = Gameplay) /\
     NoDup (map fst (st_destroyed s)) /\
     Permutation (seq 0 (st_next s))
@@ -103,35 +72,55 @@ Print Assumptions destroyed_on_caller.
 Eval vm_compute in "THEOREM no_stale_ids"%string.
 Check no_stale_ids :
   forall cf sched s,
-    1 <= cap cf -> run cf sched (init cf) = Ok s ->
+    run cf sched (init cf) = Ok s ->
     (forall k p, resolve s k = Ok (Some p) -> In (p, k) (st_log s)) /\
     (forall p p' k, In (p, k) (st_log s) -> In (p', k) (st_log s) -> p = p') /\
     (forall k, kidx k < cap cf -> gone s k ->
                forall sched2 s2, run cf sched2 s = Ok s2 -> resolve s2 k = Ok None /\ gone s2 k) /\
     (forall k p, In (p, k) (st_log s) -> resolve s k = Ok None -> ~ In (k, p) (st_newq s) -> gone s k) /\
-    (forall k c', ctl_try_reserve (st_ctl s) = Ok (Reserved k c') -> forall p, ~ In (p, k) (st_log s)).
+    (forall k c', res_try_reserve (st_ctl s) = Ok (Reserved k c') -> forall p, ~ In (p, k) (st_log s)).
 Print Assumptions no_stale_ids.
 
 Eval vm_compute in "THEOREM example_present"%string.
 Check example_present :
-  race_free ex_cf ex_sched_present (init ex_cf) /\
   exists s1, run ex_cf ex_sched_present (init ex_cf) = Ok s1 /\ st_a s1 = AIdle /\
              resolve s1 (mkKey 0 0) = Ok (Some 0) /\ In 0 (st_marked s1).
 Print Assumptions example_present.
 
 Eval vm_compute in "THEOREM example_queued"%string.
 Check example_queued :
-  race_free ex_cf ex_sched_queued (init ex_cf) /\
   exists s1, run ex_cf ex_sched_queued (init ex_cf) = Ok s1 /\
              In (mkKey 0 0, 0) (st_newq s1) /\ In 0 (st_marked s1).
 Print Assumptions example_queued.
 
 Eval vm_compute in "THEOREM example_reuse"%string.
 Check example_reuse :
-  race_free ex_cf ex_sched_reuse (init ex_cf) /\
   exists s, run ex_cf ex_sched_reuse (init ex_cf) = Ok s /\
             gone s (mkKey 0 0) /\ resolve s (mkKey 0 0) = Ok None /\
             resolve s (mkKey 0 1) = Ok (Some 2) /\ resolve s (mkKey 1 0) = Ok (Some 1) /\
             st_destroyed s = [(0, Gameplay)] /\ res_len s = 2 /\
-            ctl_try_reserve (st_ctl s) = Ok ArenaFull.
+            res_try_reserve (st_ctl s) = Ok ArenaFull.
 Print Assumptions example_reuse.
+
+Eval vm_compute in "THEOREM f27_regression"%string.
+Check f27_regression :
+  forall sr pb : bool,
+    let cf := mkCfg sr pb 1 in
+    exists s1 s2,
+      run cf f27_prefix (init cf) = Ok s1 /\ st_a s1 = AIdle /\
+      resolve s1 (mkKey 0 1) = Ok (Some 1) /\ In 1 (st_marked s1) /\ st_unused s1 = [0] /\
+      run cf f27_callback s1 = Ok s2 /\
+      st_callbacks s1 < st_callbacks s2 /\ st_a s2 = AIdle /\
+      resolve s2 (mkKey 0 1) = Ok None /\ st_unused s2 = [0; 1] /\ st_destroyed s2 = [] /\
+      res_len s2 = 0.
+Print Assumptions f27_regression.
+
+Eval vm_compute in "THEOREM capacity_zero_regression"%string.
+Check capacity_zero_regression :
+  forall sr pb : bool,
+    let cf := mkCfg sr pb 0 in
+    res_try_reserve (st_ctl (init cf)) = Ok ArenaFull /\
+    exists s, run cf [G_reserve; G_drain_done; G_push; A_start; A_remove; A_add; A_add] (init cf) = Ok s /\
+              st_g s = GIdle /\ res_len s = 0 /\ st_created s = 0 /\
+              st_destroyed s = (if pb then [(0, Gameplay)] else []).
+Print Assumptions capacity_zero_regression.
